@@ -32,7 +32,10 @@ Within one macro step the observation is canonical: batch starts in order, then
 caller completions sorted by caller id, then task deaths (DESIGN §3.1).
 Batch ids are given by the harness-owned batch function in invocation order;
 the key strings handed to the library are ``str(key id)`` so that the default
-key ``str(arg)`` of argument ``a`` is key id ``a``.
+key ``str(arg)`` of argument ``a`` is key id ``a``.  One key id, ``EMPTY_KEY``,
+denotes the EMPTY string ``''`` (an explicit but falsy key): for the model it is
+just another key; it must never be used as an argument (its default key would
+be ``str(EMPTY_KEY)``, a different string) — ``new_task`` refuses that.
 """
 from __future__ import annotations
 
@@ -117,6 +120,17 @@ def _task_done(t):
         run.sim.obs('died')
 
 
+EMPTY_KEY = 77     # the key id that stands for the explicit key '' (falsy)
+
+
+def key_str(k):
+    return '' if k == EMPTY_KEY else str(k)
+
+
+def key_id(s):
+    return EMPTY_KEY if s == '' else int(s)
+
+
 def classify_exc(e):
     if isinstance(e, HExc):
         return ['yexc', e.e] if e.kind == 'y' else ['rexc', e.e]
@@ -152,7 +166,7 @@ class _Run:
         items = []
         for k, a in args:
             try:
-                items.append([int(k), int(a)])
+                items.append([key_id(k), int(a)])
             except Exception:
                 items.append([4999, 4999])
         sim.obs('start', bid, items, sim.ticks())
@@ -162,7 +176,7 @@ class _Run:
             cmd = await fut
             if cmd[0] == 'yield':
                 x = cmd[3]
-                yield (str(cmd[1]), x if cmd[2] == 'v' else HExc('y', x))
+                yield (key_str(cmd[1]), x if cmd[2] == 'v' else HExc('y', x))
             elif cmd[0] == 'raise':
                 raise (HKeyExc if cmd[1] % 2 else HExc)('r', cmd[1])
             else:
@@ -173,7 +187,7 @@ class _Run:
             if key is None:
                 r = await self.call(arg)
             else:
-                r = await self.call(arg, key=str(key))
+                r = await self.call(arg, key=key_str(key))
             if isinstance(r, BaseException):
                 return ['lib', LIB_RETURNED_EXC]
             if isinstance(r, int) and not isinstance(r, bool):
@@ -201,6 +215,8 @@ class _Run:
             self.ncid += 1
 
     def new_task(self, arg, key, more=0):
+        if arg == EMPTY_KEY:
+            raise ValueError('EMPTY_KEY must not be used as an argument')
         cid = self.ncid
         self.ncid += 1
         return self.sim.loop.create_task(self.caller(cid, arg, key, more))
@@ -521,6 +537,8 @@ ASSUMPTIONS = ['asyncio primitives (Queue, wait_for, Semaphore FIFO, shield, Fut
                'retention_timeout and batch_timeout are not mutated while running',
                'macro-step granularity: of the user code that reacts inside the same loop iteration only the pattern "a task '
                'calls the batcher again in the continuation of its answer" (Chain events) is modelled (DESIGN §4)',
+               'keys handed to the library are the strings str(key id), plus the empty string for one reserved key id '
+               '(EMPTY_KEY: an explicit but falsy key); arguments are small integers, never EMPTY_KEY',
                'Python 3.12 asyncio semantics']
 TRUSTED = ['harness/vloop.py (virtual-time loop), harness/batcher_drv.py (driver, canonicalisation: per macro step batch '
            'starts in order, completions sorted by caller id; watchdog for non-terminating runs), '
